@@ -7,6 +7,8 @@ behaviour and every rule must stay silent on the result.
   rev-arms  : the value list of every multi-way switch reversed (same value -> target pairs, other order)
   negate-if : every two-way switch on a bool tests the negated value with the targets exchanged
   split-edges: an empty block is put on every switch edge and behind every call
+  rename-locals: every named local / parameter gets another name
+  anon-consts: named scalar constants become literals (`ClusterId::ROOT_DIR` as its value, `CMD17` as 0x11)
 usage: tools/metamorphic.py [kind ...]   (default: all, one after the other)"""
 import json, os, sys
 V = os.path.dirname(os.path.dirname(os.path.abspath(__file__)))
@@ -40,6 +42,27 @@ def transform(raw, kind):
                 elif t["k"] == "Call" and t.get("target") is not None:
                     t["target"] = pad(t["target"])
                     n += 1
+        return n
+    if kind == "rename-locals":
+        for body in raw["bodies"]:
+            for i, l in enumerate(body["locals"]):
+                if l.get("name") and l["name"] != "self":
+                    l["name"] = "v%d" % i
+                    n += 1
+        return n
+    if kind == "anon-consts":
+        def walk(x):
+            nonlocal n
+            if isinstance(x, dict):
+                if x.get("k") == "const" and "val" in x and "def" in x and "promoted" not in x:
+                    del x["def"]
+                    n += 1
+                for v in x.values():
+                    walk(v)
+            elif isinstance(x, list):
+                for v in x:
+                    walk(v)
+        walk(raw["bodies"])
         return n
     for body in raw["bodies"]:
         for blk in body["blocks"]:
@@ -75,7 +98,7 @@ def transform(raw, kind):
 
 
 def main():
-    kinds = sys.argv[1:] or ["swap-eq", "mirror-cmp", "swap-comm", "rev-arms", "negate-if", "split-edges"]
+    kinds = sys.argv[1:] or ["swap-eq", "mirror-cmp", "swap-comm", "rev-arms", "negate-if", "split-edges", "rename-locals", "anon-consts"]
     props = [json.loads(l)["id"] for l in open(os.path.join(V, "properties.jsonl"))]
     bad = 0
     for kind in kinds:
